@@ -193,6 +193,16 @@ def run(tier):
             chk.violation('proof obligations of props/C04.v no longer check; failing state found by evaluation: %s' % w.get('what', '')[:300], dict(chk.broken_summary(), witness=w))
         else:
             chk.violation('proof obligations of props/C04.v no longer check (the regenerated add/adc/sub/sbb/cmp/and/or/xor/test forms are no longer the mirror of Sem.v, or a theorem broke)', chk.broken_summary(), found_input=False)
+    # supporting validation of the reference itself against the processor of this machine (testing of the specification)
+    try:
+        import cpucheck, io, contextlib
+        buf = io.StringIO()
+        with contextlib.redirect_stdout(buf):
+            rc = cpucheck.main(10 if tier == 'quick' else 200)
+        chk.cov['reference_vs_processor'] = buf.getvalue().strip().split('\n')[0] if buf.getvalue().strip() else 'no output'
+        if rc != 0: chk.log('WARNING: harness/x86ref.py disagrees with this processor: ' + buf.getvalue()[:400])
+    except Exception as e:
+        chk.cov['reference_vs_processor'] = 'not run: %s' % e
     chk.cov['rule'] = ('integer-core forms of the lift catalogue (one byte string per mnemonic x operand size x operand shape signature; 32-bit addressing; prefixes none/66) x %d states per form '
                        '(registers from boundary values 0,1,2^k-1,2^k,sign bit,all-ones and random; flags random; esp/ebp/esi/edi partly placed in a memory window). The lifted IR is evaluated with the '
                        'extracted Expr.eval, all assignments reading the pre-state, and compared with harness/x86ref.py (SDM reference): 8 registers, defined flags, written bytes, next eip. '
